@@ -126,6 +126,15 @@ def handle (cmd : String) (j : J) : Except String J :=
     let mode ← parseMode (← j.get "mode")
     let ops ← (← j.get "ops").toListOf parseOp
     pure (J.arr (runSpec k sfx (DataStoreDict.Dict.empty mode) ops))
+  | "safe" => do
+    -- hypotheses of `store_refines_dict_partial` on a concrete history
+    let cfg : Cfg := { exactDrop := ← (← j.get "exact").toBool, roDropChecked := ← (← j.get "rocheck").toBool }
+    let sfx := (← (← j.get "sfx").toStr).toList
+    let mode ← parseMode (← j.get "mode")
+    let ids := (← (← j.get "ids").toListOf J.toStr).map String.toList
+    let ops ← (← j.get "ops").toListOf parseOp
+    pure (J.obj [("hyg", J.bool (DataStoreDict.hyg cfg sfx ids)),
+                 ("safe", J.bool (DataStoreDict.safeHist cfg sfx ids (DataStoreDict.Dict.empty mode) ops))])
   | "names" => do
     -- the naming layer on one identifier
     let sfx := (← (← j.get "sfx").toStr).toList
